@@ -121,24 +121,33 @@ def replay(ck, em, beh, rng, n):
     m.means = r.normal(size=(C, D)) * 2
     m.variances = r.uniform(0.3, 2, size=(C, D))
     X = r.normal(size=(n, D)) * 2.5
+    dtype = "float64"
+    if r.rand() < 0.3:
+        # narrow integer data (8-bit pixels, 16-bit audio): squares do not fit the input dtype
+        dtype = "uint8" if r.rand() < 0.5 else "int16"
+        X = (r.randint(20, 250, size=(n, D)) if dtype == "uint8" else r.randint(-3000, 3000, size=(n, D))).astype(dtype)
+        sc = 60.0 if dtype == "uint8" else 1500.0
+        m.means = np.asarray(m.means) * sc + (120.0 if dtype == "uint8" else 0.0)
+        m.variances = np.asarray(m.variances) * sc ** 2
     use_dask = r.rand() < 0.35
     ck.replayed += 1
     ck.seen(beh["hist"])
     scn = {"hist": [{k: h[k] for k in ("op", "a", "b", "block", "res")} for h in beh["hist"]], "C": C, "D": D,
-           "input": "dask" if use_dask else "numpy"}
+           "input": "dask" if use_dask else "numpy", "dtype": dtype}
 
     def bad(clause, detail):
         ck.violation("M2:GmmStats:" + clause, {"mechanism": "M2", "module": "GmmStats", "behaviour": scn, "detail": detail})
 
     # single-sample statistics from the code, against the independent posterior
-    resp, ll = responsibilities(np.asarray(m.weights), np.asarray(m.means), np.asarray(m.variances), X)
+    Xf = np.asarray(X, dtype=float)
+    resp, ll = responsibilities(np.asarray(m.weights), np.asarray(m.means), np.asarray(m.variances), Xf)
     single = []
     for i in range(n):
         t, nn, px, pxx, l = fields(m.acc_stats(X[i:i + 1]))
         single.append((t, nn, px, pxx, l))
         ok = (t == 1 and np.allclose(nn, resp[:, i], rtol=1e-9, atol=1e-12) and np.all(nn >= 0) and abs(nn.sum() - 1) < 1e-9
-              and np.allclose(px, resp[:, i, None] * X[i], rtol=1e-9, atol=1e-12)
-              and np.allclose(pxx, resp[:, i, None] * X[i] ** 2, rtol=1e-9, atol=1e-12) and abs(l - ll[i]) <= 1e-9 * max(1, abs(ll[i])))
+              and np.allclose(px, resp[:, i, None] * Xf[i], rtol=1e-9, atol=1e-12)
+              and np.allclose(pxx, resp[:, i, None] * Xf[i] ** 2, rtol=1e-9, atol=1e-12) and abs(l - ll[i]) <= 1e-9 * max(1, abs(ll[i])))
         if not ok:
             return bad("PosteriorMoments", "sample %d: statistics %s, expected n=%s ll=%s" % (i, (t, nn.tolist(), px.tolist(), pxx.tolist(), l), resp[:, i].tolist(), ll[i]))
 
